@@ -81,6 +81,95 @@ def check_value(table, v, out, path=''):
             env[i] = val
 
 
+class NoRef(Exception):
+    """the positional reference does not cover this declaration (positioning, regex delimiter not kept, ...)"""
+
+
+def leaf_size(l, val, cur, rawlen):
+    k = l[0]
+    if k == 'int':
+        return l[1]
+    if k == 'dsized':
+        return len(val)
+    if k == 'deos':
+        if cur > rawlen:
+            raise NoRef()      # a read-to-end string placed beyond the end of the input hands the cursor back (see DESIGN, O1)
+        return len(val)
+    if k == 'dmarker':
+        return len(val) + (0 if l[2] else len(l[1]))
+    if k == 'dregex' and l[2]:
+        return len(val)
+    raise NoRef()
+
+
+def elem_end(table, el, val, cur, env, rawlen):
+    if el[0] == 'leaf':
+        return cur + leaf_size(el[1], val, cur, rawlen)
+    if el[0] == 'refpkt':
+        return pkt_end(table, val, cur, rawlen)
+    if el[0] == 'refsel':
+        try:
+            t = gen.py_eval(el[1], env)
+        except gen.PyExn:
+            raise NoRef()
+        if isinstance(t, tuple) and t[0] == 'pkt':
+            return pkt_end(table, val, cur, rawlen)
+        if isinstance(t, tuple) and t[0] == 'leaf':
+            return cur + leaf_size(t[1], val, cur, rawlen)
+    raise NoRef()
+
+
+def pkt_end(table, v, cur, rawlen):
+    """'parsing continues right after': where the parse of the packet value v, started at cur, must end -- computed from the
+    parsed values and the declaration alone (every value has a known encoded length; an empty list / a None optional has
+    none; elements of a repeated field start at the next multiple of its alignment)"""
+    if not (isinstance(v, tuple) and v[0] == 'pkt'):
+        raise NoRef()
+    pc = table[v[1]]
+    vals = v[2]
+    if pc.get('align') is not None:
+        raise NoRef()
+    env = {}
+    fields = pc['fields']
+    i = 0
+    while i < len(fields):
+        fd = fields[i]
+        b = fd['body']
+        if fd.get('move'):
+            raise NoRef()
+        val = vals.get(i)
+        if b[0] == 'bits':
+            w = 0
+            while i < len(fields) and fields[i]['body'][0] == 'bits' and not fields[i].get('move'):
+                w += fields[i]['body'][1]
+                env[i] = vals.get(i)
+                i += 1
+            if w % 8:
+                raise NoRef()
+            cur += w // 8
+            continue
+        if b[0] == 'elem':
+            cur = elem_end(table, b[1], val, cur, env, rawlen)
+        elif b[0] == 'seq':
+            al = b[6]
+            if not isinstance(val, list):
+                raise NoRef()
+            e0 = dict(env); e0[i] = val
+            for x in val:
+                if al not in (None, 1):
+                    cur += (al - cur % al) % al
+                cur = elem_end(table, b[1], x, cur, e0, rawlen)
+        elif b[0] == 'opt':
+            if val is not None:
+                cur = elem_end(table, b[1], val, cur, env, rawlen)
+        elif b[0] != 'em':
+            raise NoRef()
+        if val is not None or i in vals:
+            env[i] = val
+        i += 1
+    return cur
+
+
 def run(tier, seed, rng):
     ng = 70 if tier == 'quick' else 700
     feats = lambda g: dict(seq=True, opt=True, refsel=True, bits=(g % 3 == 0), move=(g % 4 == 0))
@@ -88,7 +177,7 @@ def run(tier, seed, rng):
     # counts in {-2..3} incl. negative ones: flip the count-bearing bytes (done by the byte flips) and add explicit constants
     records, disagreements = pktcases.run_groups(groups, 'c08')
     failures = []
-    out = dict(seq=0, counted=0, until=0, when_false=0, opt=0, selected=0, ref=0, unevaluable=0, parsed=0, bad=[])
+    out = dict(seq=0, counted=0, until=0, when_false=0, opt=0, selected=0, ref=0, unevaluable=0, parsed=0, positions=0, positions_not_covered=0, bad=[])
     for r in records:
         if r['kind'] != 'roundtrip' or 'ok' not in r['outcome']:
             continue
@@ -96,6 +185,17 @@ def run(tier, seed, rng):
         table = pktprops.table_of(groups, r['group'])
         nbad = len(out['bad'])
         check_value(table, pktprops.uncanon(r['outcome']['ok']), out)
+        # positions: the parse must end where the encoded lengths of the parsed values put it (an empty list or an absent
+        # optional consumes nothing; parsing continues right after a nested packet)
+        if 'end' in r['outcome']:
+            try:
+                want = pkt_end(table, pktprops.uncanon(r['outcome']['ok']), r['offset'], len(r['raw']))
+                out['positions'] += 1
+                if want != r['outcome']['end']:
+                    out['bad'].append((decl.cname(r['c']), f"the parse ended at {r['outcome']['end']} but the parsed values occupy exactly "
+                                       f"[{r['offset']}, {want}) (a field consumed bytes it has no value for, or parsing did not continue right after one)", None))
+            except NoRef:
+                out['positions_not_covered'] += 1
         for here, why, val in out['bad'][nbad:]:
             failures.append(dict(kind='oracle', sig='control', what=f"{here}: {why}", classes=pktprops.class_source(groups, r['group']),
                                  cls=decl.cname(r['c']), raw=r['raw'].hex(), offset=r['offset'], observed=r['outcome']['ok']))
@@ -104,7 +204,7 @@ def run(tier, seed, rng):
                 rule=("random class tables rich in repeated (count as constant / field / expression / callable, until-callables over the list "
                       "built so far, when-conditions, per-element alignment), optional and referenced (fixed and run-time selected) fields, "
                       "nested; encodings of consistent values, truncations, byte flips (which also drive counts to 0 and to large values) and a "
-                      "start offset; every successfully parsed packet is re-examined by a reference interpretation of the control rules alone; "
+                      "start offset; every successfully parsed packet is re-examined by a reference interpretation of the control rules alone, and (declarations without positioning) its end offset is compared with the end computed from the encoded lengths of the parsed values; "
                       "distinct_nontrivial = number of repeated/optional/reference fields examined"),
                 samples=[dict(classes=pktprops.class_source(groups, r['group']), raw=r['raw'].hex(), parsed=r['outcome'].get('ok'))
                          for r in records if r['kind'] == 'roundtrip' and 'ok' in r['outcome']][:2],
